@@ -29,7 +29,7 @@ pub fn generate(rng: &mut Rng, fam: Family) -> Value {
     };
     match fam {
         Family::Join => match rng.below(10) {
-            0 => json!({"t": "nlj", "jt": *rng.pick(&["inner", "left", "right", "full"])}),
+            0 => json!({"t": "nlj", "jt": *rng.pick(&["inner", "left", "right", "full", "semi", "anti", "rsemi", "ranti"])}),
             1 => json!({"t": "cross"}),
             2 => json!({"t": "notin"}),
             _ => json!({
@@ -100,10 +100,14 @@ pub fn sql(q: &Value) -> Option<String> {
         }
         "nlj" => {
             let jt = q.get("jt")?.as_str()?;
-            if !["inner", "left", "right", "full"].contains(&jt) {
-                return None;
+            match jt {
+                "inner" | "left" | "right" | "full" => format!("SELECT a.id, b.id FROM a {} JOIN b ON a.v < b.v", jt.to_uppercase()),
+                "semi" => "SELECT a.id FROM a LEFT SEMI JOIN b ON a.v < b.v".to_string(),
+                "anti" => "SELECT a.id FROM a LEFT ANTI JOIN b ON a.v < b.v".to_string(),
+                "rsemi" => "SELECT b.id FROM a RIGHT SEMI JOIN b ON a.v < b.v".to_string(),
+                "ranti" => "SELECT b.id FROM a RIGHT ANTI JOIN b ON a.v < b.v".to_string(),
+                _ => return None,
             }
-            format!("SELECT a.id, b.id FROM a {} JOIN b ON a.v < b.v", jt.to_uppercase())
         }
         "cross" => "SELECT a.id, b.id FROM a CROSS JOIN b".to_string(),
         "notin" => "SELECT id FROM a WHERE k NOT IN (SELECT k FROM b)".to_string(),
